@@ -49,13 +49,13 @@ def fuel_obj(name='conventional_jetA'):
 EDB_FORMS = ('reported', 'partial_idle', 'partial_takeoff', 'unreported')
 
 
-def model(flows=None, apu='running', aclass='narrow', mode_order='idle_first', edb='reported'):
+def model(flows=None, apu='running', aclass='narrow', mode_order='idle_first', edb='reported', lto_form='frozen'):
     """Sample B738 model with integer LTO fuel flows (g/s), APU variant and class; the per-mode LTO sections are
     listed idle .. take-off or (InventoryGen.tla ModeOrders) take-off .. idle, the ICAO databank's order."""
     from AEIC.config import config
     from AEIC.performance.models import PerformanceModel
 
-    key = ('pm', None if flows is None else tuple(sorted(flows.items())), apu, aclass, mode_order, edb)
+    key = ('pm', None if flows is None else tuple(sorted(flows.items())), apu, aclass, mode_order, edb, lto_form)
     if key in _state:
         return _state[key]
     if 'toml' not in _state:
@@ -79,6 +79,11 @@ def model(flows=None, apu='running', aclass='narrow', mode_order='idle_first', e
         warnings.simplefilter('ignore')
         pm = PerformanceModel.from_data(d)
     e = pm.edb  # read the engine database once per model
+    if lto_form == 'mutable':
+        # InventoryGen.tla LtoForms: the model's per-mode LTO indices as mutable tables (the model is the caller's and is
+        # shared by every flight of this process that asks for the same model)
+        for name in ('EI_NOx', 'EI_HC', 'EI_CO'):
+            setattr(pm.lto, name, getattr(pm.lto, name).copy(mutable=True))
     if edb != 'reported':
         # InventoryGen.tla EdbForms: the engine data bank marks an nvPM value that was not reported with -1 - for all
         # thrust modes or for some only; the number indices are not reported in these forms
